@@ -89,10 +89,39 @@ var pluginSets = [][]string{{"http", "poll"}, {"http", "poll"}, {"http", "poll"}
 
 func genCases(r *rand.Rand, n int) []Case {
 	var cs []Case
-	for i := 0; i < n; i++ {
-		c := Case{Idx: i, Targets: targetSets[r.Intn(len(targetSets))], Plugins: pluginSets[r.Intn(len(pluginSets))],
+	mk := func(ti, pi int) Case {
+		return Case{Targets: targetSets[ti], Plugins: pluginSets[pi],
 			Kind: []string{"invoke", "invoke", "resume", "notify"}[r.Intn(4)], Plugin: []string{"success", "success", "failure", "error", "full"}[r.Intn(5)],
 			Http: []int{200, 200, 500, 404, 0}[r.Intn(5)]}
+	}
+	// the whole cross product {tags, stored bytes, no tag} x target tables x plugin sets first (kind / transport answer drawn at random) ...
+	distinctPlugins := []int{0, 3, 4, 5}
+	for ti := range targetSets {
+		for _, pi := range distinctPlugins {
+			for _, t := range plainTags {
+				t := t
+				c := mk(ti, pi)
+				c.Tag = &t
+				cs = append(cs, c)
+			}
+			for _, t := range jsonTags {
+				t := t
+				c := mk(ti, pi)
+				c.Tag = &t
+				cs = append(cs, c)
+			}
+			for _, b := range storedBytes {
+				b := b
+				c := mk(ti, pi)
+				c.Stored = &b
+				cs = append(cs, c)
+			}
+			cs = append(cs, mk(ti, pi))
+		}
+	}
+	// ... then random draws (other kinds / transport answers for the same addresses)
+	for len(cs) < n {
+		c := mk(r.Intn(len(targetSets)), r.Intn(len(pluginSets)))
 		switch x := r.Intn(10); {
 		case x < 4:
 			t := plainTags[r.Intn(len(plainTags))]
@@ -106,6 +135,9 @@ func genCases(r *rand.Rand, n int) []Case {
 		default:
 		}
 		cs = append(cs, c)
+	}
+	for i := range cs {
+		cs[i].Idx = i
 	}
 	return cs
 }
